@@ -335,14 +335,15 @@ func checkC04(c *Ctx) {
 	//    could identify (int / float / string of the same digits, 0.0 / -0.0 / 0, an array / its spread / its nesting,
 	//    small / large containers, prefix-equal lists): the second and third call must not replay the first one's output
 	argLists := []string{"1", "1.0", `"1"`, "true", "nil", "0", "0.0", "-0.0", "[1]", "[[1]]", "1, [2]", "1, [[2]]", "1, 2", "[1, 2]", "[[1, 2]]", "1, [2], [3]", "1, [2, [3]]",
-		"{1: 1}", `{"1": 1}`, "[1, 2, 3, 4, 5, 6, 7, 8, 9]", "[1, 2, 3, 4, 5, 6, 7, 8, 9.0]", "1, 2, 3, 4, 5", "1, 2, 3, 4, 6", `[{1: [0.0]}]`, `[{1: [-0.0]}]`, "[]", "[[]]", `""`, "1, nil", "1, []"}
+		"{1: 1}", `{"1": 1}`, "[1, 2, 3, 4, 5, 6, 7, 8, 9]", "[1, 2, 3, 4, 5, 6, 7, 8, 9.0]", "1, 2, 3, 4, 5", "1, 2, 3, 4, 6", `[{1: [0.0]}]`, `[{1: [-0.0]}]`, "[0.0]", "[-0.0]", "{1: 0.0}", "{1: -0.0}", "{0.0: 1}", "{-0.0: 1}", "[1, 0.0], 2", "[1, -0.0], 2", "[]", "[[]]", `""`, "1, nil", "1, []"}
 	shapes := []string{`f = func(..) {println("called", ..); [len(..), ..]}`, `f = func(a, ..) {println("called", a, ..); [a, len(..), ..]}`,
 		`f = func(a) {println("called", a); [a, 1 / (if a == 0 {a} else {1})]}`, `f = func(a, b) {println("called", a, b); [a, b]}`,
 		`f = func(a, b, c, d, e) {println("called", e); [a, e]}`, `g = func(a, ..) {[a, ..]}; f = func(a, ..) {println("called", a); g(a, ..)}`}
 	for si, sh := range shapes {
 		for i, x := range argLists {
 			for j, y := range argLists {
-				if i == j || (!c.Thorough() && (i*31+j*17+si+int(c.Seed))%3 != 0) {
+				twins := strings.ReplaceAll(x, "-0.0", "0.0") == strings.ReplaceAll(y, "-0.0", "0.0") // differ by the sign of a zero only: never sampled out
+				if i == j || (!twins && !c.Thorough() && (i*31+j*17+si+int(c.Seed))%3 != 0) {
 					continue
 				}
 				pinned = append(pinned, []string{sh, "println(catch(f(" + x + ")))", "println(catch(f(" + y + ")))", "println(catch(f(" + x + ")))"})
